@@ -94,7 +94,7 @@ def run(t, budget=1.0):
                     v = data.draw(st.integers(0, min(top, 300)))
                 else:
                     orig = M.unpack(img[pos:pos + width])
-                    v = data.draw(st.one_of(st.sampled_from(sorted({0, 1, max(orig - 1, 0), min(orig + 1, top), top, top // 2 + 1, len(img)})), st.integers(0, top)))
+                    v = data.draw(st.one_of(st.sampled_from(sorted({0, 1, max(orig - 1, 0), min(orig + 1, top), top, top - 1, max(top - width, 0), max(top - width + 1, 0), top // 2 + 1, len(img)})), st.integers(0, top)))
                 b = bytearray(img)
                 b[pos:pos + width] = M.pack(v, width)
                 img = bytes(b)
